@@ -310,6 +310,40 @@ Section C05.
     | x :: t, S i' => x :: upd_nth t i' f
     end.
 
+  (* ------------------------------------------------------------- save() WITHOUT the raw data *)
+  (* Ptychography.save(save_raw_data=False) (the default): `_dset` / `dset` are skipped by the
+     serialiser, so the dataset model (index i) — its parameter cells, optimiser and scheduler —
+     is NOT in the file; `_dataset_metadata` carries the VALUES of its parameters
+     ("learned_scan_positions_px", "learned_descan_shifts": `.data.cpu()` of the model's own
+     tensors, taken before the object is moved).  from_file(path, dset=d): d is a freshly
+     preprocessed dataset model — its own parameter cells, no optimiser, no scheduler, its own
+     constraint dictionary c; `_set_initial_scan_positions_px` resets its cells and then their
+     `.data` is overwritten with the metadata values; `ptycho.dset = d` makes it model i of the
+     loaded reconstruction.  (The other route, save_raw_data=True + from_file(path), is `reload`.) *)
+  Definition meta_of (s : st) (i : nat) : list (option V) :=
+    match nth_error (models (rc s)) i with
+    | Some m => map (hp (hh s)) (mparams m)
+    | None => []
+    end.
+  Definition attach (i : nat) (meta : list (option V)) (c : C) (s : st) : st :=
+    let h := hh s in
+    let n := hnext h in
+    match nth_error (models (rc s)) i with
+    | None => s
+    | Some _ =>
+      {| hh := {| hp := fun j => if j <? n then hp h j
+                                 else if j <? n + length meta then nth (j - n) meta None else hp h j;
+                  ho := ho h; hs := hs h; hnext := n + length meta |};
+         rc := {| models := upd_nth (models (rc s)) i
+                             (fun _ => {| mparams := seq n (length meta); mopt := None; msched := None; mcons := c |});
+                  losses := losses (rc s); lrs := lrs (rc s) |} |}
+    end.
+  (* (the blob of model i is simply never read: copying it and dropping the reference is the same
+     thing in a heap whose ids are not observable) *)
+  Definition reload_meta (written : bool) (i : nat) (c : C) (dev : bool) (s : st) : st :=
+    let s1 := to_dev written s in
+    load written dev (attach i (meta_of s1 i) c (copy_st Joint s1)).
+
   (* set_optimizer + set_scheduler of model i (reconstruct(optimizer_params=…, scheduler_params=…)):
      a NEW optimiser over the model's current parameters with empty state, and a new scheduler
      (or none) that refers to it.  torch refuses an empty parameter list: then nothing changes. *)
@@ -375,7 +409,8 @@ Section C05.
   | OpReload (dev : bool)         (* save(); go on with from_file(path[, device]) *)
   | OpClone                       (* go on with clone() *)
   | OpCloneFallback               (* go on with clone() whose deepcopy failed *)
-  | OpModelReload (i : nat).      (* m = load(save(model i)); recon.model_i = m  (the setter calls m.to(device)) *)
+  | OpModelReload (i : nat)       (* m = load(save(model i)); recon.model_i = m  (the setter calls m.to(device)) *)
+  | OpReloadMeta (i : nat) (c : C) (dev : bool).   (* save(save_raw_data=False); go on with from_file(path, dset=d[, device]) *)
 
   Definition apply_op (written : bool) (o : op) (s : st) : st :=
     match o with
@@ -389,6 +424,7 @@ Section C05.
     | OpClone => clone written s
     | OpCloneFallback => clone_fallback written s
     | OpModelReload i => to_dev written (copy_st (ModelSplit i) s)
+    | OpReloadMeta i c dev => reload_meta written i c dev s
     end.
   Definition run_ops (written : bool) (ops : list op) (s : st) : st :=
     fold_left (fun s o => apply_op written o s) ops s.
@@ -574,6 +610,9 @@ Arguments reload {V M L R C SS} written g dev s.
 Arguments clone {V M L R C SS} written s.
 Arguments clone_fallback {V M L R C SS} written s.
 Arguments upd_nth {A} l i f.
+Arguments meta_of {V M L R C SS} s i.
+Arguments attach {V M L R C SS} i meta c s.
+Arguments reload_meta {V M L R C SS} written i c dev s.
 Arguments set_opt {V M L R C SS} sched_init i k lr sc s.
 Arguments remove_opt {V M L R C SS} i s.
 Arguments set_cons {V M L R C SS} i c s.
@@ -589,6 +628,7 @@ Arguments OpReload {R C SS} dev.
 Arguments OpClone {R C SS}.
 Arguments OpCloneFallback {R C SS}.
 Arguments OpModelReload {R C SS} i.
+Arguments OpReloadMeta {R C SS} i c dev.
 Arguments apply_op {V G M L R C SS} Rzero forward opt_update sched_init sched_step written o s.
 Arguments run_ops {V G M L R C SS} Rzero forward opt_update sched_init sched_step written ops s.
 Arguments mview_of {V M R C SS} h m.
